@@ -143,7 +143,9 @@ theorem C02_tree_well_shaped_and_yield (P : Program) (inp : List Nat) (fuel : Na
     ∃ tree : OTree, v = tree.toVal ∧ WellShaped tree ∧
       Trace (peg P inp fuel) (ptableExprs pre operand mixfix post inf) p tree.yield pe := by
   simp only [peg] at h
-  exact pegOT_result_shaped _ _ (tagged_of_check P inp fuel pre operand mixfix post inf htag) fuel p v pe h
+  obtain ⟨tree, h1, h2, h3, _⟩ :=
+    pegOT_result_shaped _ _ (tagged_of_check P inp fuel pre operand mixfix post inf htag) fuel p v pe h
+  exact ⟨tree, h1, h2, h3⟩
 
 /-- the same for the code model: the emitted loop returns that value and that end position -/
 theorem C02_generated_code_builds_that_tree {F : FlagTable} (hF : LocallySound F) (P : Program) (inp : List Nat)
@@ -158,8 +160,9 @@ theorem C02_generated_code_builds_that_tree {F : FlagTable} (hF : LocallySound F
 /-- the reductions that the loop performs never lose or reorder an occurrence: the final pops
     of a consistent stack give one tree whose reading is the reading of the stacks -/
 theorem C02_reductions_preserve_order (ops : List OpEntry) (t : OTree) (rest : List OTree) (h : CInv ops t rest) :
-    ∃ T, popAll ops (t :: rest) = some [T] ∧ WellShaped T ∧ T.yield = yieldBelow ops rest ++ t.yield :=
-  popAll_spec ops t rest h
+    ∃ T, popAll ops (t :: rest) = some [T] ∧ WellShaped T ∧ T.yield = yieldBelow ops rest ++ t.yield := by
+  obtain ⟨T, h1, h2, h3, _⟩ := popAll_spec ops t rest h
+  exact ⟨T, h1, h2, h3⟩
 
 /-- **C02, "the unique tree".**  Two well-shaped trees with the same in-order reading are the same
     tree: what a table returns is *the* tree that groups the consumed occurrences according to
@@ -181,6 +184,24 @@ theorem C02_result_is_the_well_shaped_tree (P : Program) (inp : List Nat) (fuel 
   refine ⟨tree, hv, hw, htr, ?_⟩
   intro other ho hy
   rw [wellShaped_unique other tree ho hw hy, hv]
+
+/-- **C02, the extent of the expression.**  The expression ends at the returned position for one
+    of exactly these reasons: the table has no infix rows, or no infix operator can be read there;
+    or one can be read, but after it (and any prefix operators) no operand follows - so that
+    dangling operator is left unconsumed; or the infix operator that can be read there is
+    non-associative and an operator of its own row is open at the right edge of the tree (the
+    expression ends before the second one).  In every other situation the loop goes on: the
+    expression extends over the longest run of operands and operators of this shape. -/
+theorem C02_run_is_maximal (P : Program) (inp : List Nat) (fuel : Nat)
+    (pre : List Expr) (operand : Expr) (mixfix post inf : List Expr) (p : Nat) (v : Val) (pe : Nat)
+    (htag : tableTaggedB pre inf = true)
+    (h : peg P inp (fuel + 1) (.optable pre operand mixfix post inf) p = some (.ok v pe)) :
+    ∃ tree : OTree, v = tree.toVal ∧ WellShaped tree ∧
+      Stops (peg P inp fuel) (ptableExprs pre operand mixfix post inf) tree pe := by
+  simp only [peg] at h
+  obtain ⟨tree, h1, h2, _, h4⟩ :=
+    pegOT_result_shaped _ _ (tagged_of_check P inp fuel pre operand mixfix post inf htag) fuel p v pe h
+  exact ⟨tree, h1, h2, h4⟩
 
 namespace C02Example
 /-- `"1" between { left: "*"; left: "+" }`: `*` (row 0) binds tighter than `+` (row 1) -/
